@@ -6,7 +6,7 @@ from .model import RANKS, is_halfop
 NICKS = ["al", "bo", "cy", "di", "ed", "fy", "root", "adm", "Al", "zoé"]
 USERS = {"zoé": "zoe", "Al": "alcap", "Root": "rtcap", "al": "al", "bo": "bob", "cy": "cy", "di": "cy", "ed": "ed", "fy": "fy", "root": "rt",
          "adm": "adm"}
-CHANS = ["#x", "#y", "#z", "&w", "#café"]
+CHANS = ["#x", "#y", "#z", "&w", "#café", "#X"]  # "#X" and "#x" are two channels
 KEYS = ["k1", "key2", "x"]
 OPER_PW = {"root": "rootpw", "adm": "admpw", "far": "farpw"}
 OPER_MASK = {"root": None, "adm": "*!*@127.0.0.1", "far": "*!*@10.*"}
@@ -308,6 +308,8 @@ class Gen:
             if r.random() < 0.3:
                 users.append(r.choice(users))
         comment = self.text() if r.random() < 0.6 else None
+        if r.random() < 0.12:
+            comment = ""  # a comment that is present and empty is not an absent one
         return ("act", cid, {"verb": "KICK", "chan": c, "users": users, "comment": comment})
 
     def g_topic(self, live):
